@@ -4,6 +4,7 @@ run the named property checks against the copy, report which rules fire.
 
   selftest/mutate.py run [ids...]          run catalogue entries (selftest/mutants.json)
   entries with "benign": true are behaviour-preserving rewrites on which the checks must stay silent
+  selftest/mutate.py seeds [ids|Cnn...]    re-run the confirmed seeded changes of /verif/seeded: a recorded rule must still fire
   selftest/mutate.py patch <file.diff> C01 C07 ...   apply a patch to a scratch copy and run the given checks (or 'all')
 
 The scratch copy lives under a mktemp dir outside /repo and /verif and is removed at once.
@@ -59,6 +60,38 @@ def one(m):
     finally:
         shutil.rmtree(d, ignore_errors=True)
 
+def one_seed(sid):
+    """re-run a confirmed seeded change (seeded/<id>/patch.diff): one of the rules recorded in meta.json must still fire"""
+    sd = os.path.join(VERIF, "seeded", sid)
+    meta = json.load(open(os.path.join(sd, "meta.json")))
+    d, repo, vd = scratch()
+    try:
+        a = subprocess.run(["patch", "-p1", "-s", "-i", os.path.join(sd, "patch.diff")], cwd=repo, capture_output=True, text=True)
+        if a.returncode != 0:
+            return sid, "SKIP", "patch does not apply to the current tree: " + (a.stdout + a.stderr)[-200:]
+        rc, out = run_checks(repo, vd, meta.get("checks_run") or [meta["breaks_property"]])
+        if rc is None:
+            return sid, "NOCOMPILE", out
+        fired = [l.strip() for l in out.splitlines() if l.startswith("  C")]
+        hit = [l for l in fired if any("[" + rule + "]" in l for rule in meta.get("caught_by", []))]
+        if hit:
+            return sid, "CAUGHT", hit[0][:200]
+        return sid, "MISSED", ("; ".join(x[:160] for x in fired) or "silent")
+    finally:
+        shutil.rmtree(d, ignore_errors=True)
+
+def run_seeds(only):
+    ids = sorted(x for x in os.listdir(os.path.join(VERIF, "seeded")) if os.path.exists(os.path.join(VERIF, "seeded", x, "meta.json")))
+    ids = [x for x in ids if not only or x in only or x.split("-")[0] in only]
+    bad = 0
+    with concurrent.futures.ThreadPoolExecutor(max_workers=6) as ex:
+        for sid, verdict, detail in ex.map(one_seed, ids):
+            print(f"{verdict:9} seed {sid}: {detail}")
+            if verdict != "CAUGHT":
+                bad += 1
+    print(f"{len(ids)} seeded changes, {bad} not caught")
+    return 1 if bad else 0
+
 def main():
     if len(sys.argv) >= 3 and sys.argv[1] == "patch":
         d, repo, vd = scratch()
@@ -72,6 +105,8 @@ def main():
             print(out); sys.exit(0 if rc == 0 else 1)
         finally:
             shutil.rmtree(d, ignore_errors=True)
+    if len(sys.argv) >= 2 and sys.argv[1] == "seeds":
+        sys.exit(run_seeds(set(sys.argv[2:])))
     cat = json.load(open(os.path.join(VERIF, "selftest/mutants.json")))
     ids = set(sys.argv[2:])
     todo = [m for m in cat if not ids or m["id"] in ids or m["prop"] in ids]
